@@ -80,7 +80,8 @@ def check_schedule(kw, si, shadow=False):
         note(why="documented model depends on the processing order", key=key, shape=kw, order0=scheds[0], order=scheds[si], differing=diff[:6],
              base={k: d0.get(k) for k in diff[:3]}, other={k: d1.get(k) for k in diff[:3]})
         return False
-    if shadow and kw["cycle"] and kw["consumer"] in ("modalias", "modattr", "modalias_root", "old", "both"):
+    # (without a re-export the consumer forms 'new' and 'old' are the same text: from pkg._impl import X as B)
+    if shadow and kw["cycle"] and (kw["consumer"] in ("modalias", "modattr", "modalias_root", "old", "both") or (exporter is None and kw["consumer"] == "new")):
         key = "C06:import-cycle-while-a-star-imported-name-is-not-yet-overridden-base-resolves-to-the-shadowed-object"
         if known(key):
             return True
